@@ -450,11 +450,13 @@ func bDefineresource(intp *Interpreter) error {
 		return intp.e(eUndefined, "defineresource: undefined resource class %q", class)
 	}
 
-	switch class {
-	case "CMap":
-		if d, ok := instance.(Dict); !ok {
-			return intp.e(eTypecheck, "defineresource: needs dict, not %T", instance)
-		} else if _, ok := d["CodeMap"].(*CMapInfo); !ok {
+	// the instances of all categories known here are dictionaries
+	d, ok := instance.(Dict)
+	if !ok {
+		return intp.e(eTypecheck, "defineresource: needs dict, not %T", instance)
+	}
+	if class == "CMap" {
+		if _, ok := d["CodeMap"].(*CMapInfo); !ok {
 			return intp.e(eTypecheck, "defineresource: not a CMap")
 		}
 	}
